@@ -21,6 +21,23 @@ add("C17", "enum", "bounded-exhaustive enumeration of pattern lists x paths vs r
     "Every glob pattern of <=3 (quick) / <=4 (thorough) tokens over a 12-token alphabet and every ordered list of 0-3 patterns from a 60-pattern pool is compiled by the real CompileGlobs and matched against every path up to length 5/4 over a 6-letter alphabet; each answer is compared with an independent recursive matcher. Exhaustive inside those bounds.",
     "Trusts the reference matcher (35 lines) and Go's regexp; unescaped brackets are outside the stated semantics.", "DESIGN.md section 5 C17")
 
+SCHED_NOTE = "Trusts the vsched shim's model of sync.Mutex/RWMutex/Cond/WaitGroup/sync.Map/atomic (sequential consistency, no spurious wake-ups, Signal wakes any waiter), fair scheduling for termination, and data-race freedom of the instrumented files (free-running -race pass in the thorough tier). The code explored is the real file from /repo's working tree with only its sync imports and go statements redirected."
+add("C04", "vsched", "stateless exploration of all thread interleavings of the real runner up to a preemption bound (HB-pruned), monitor oracle",
+    "runner.Run is executed on every DAG with <=4 nodes x node behaviours (ok/failing/unknown, <=2 non-ok) x limits 1-3 (and split dependency requests); every interleaving with <=2 preemptions (quick; 1 for 4-node graphs) / <=3 and unbounded for <=3 nodes (thorough) is run to completion and a monitor checks at-most-once load/evaluate, dependencies finished before continuing, outcomes handed through exactly, Run's result = root's outcome.",
+    SCHED_NOTE, "DESIGN.md section 5 C04")
+add("C05", "vsched", "stateless exploration of all thread interleavings of the real runner up to a preemption bound, deadlock/livelock detection under fair scheduling",
+    "runner.Run on all directed graphs (self-loops included) on <=3 nodes plus selected 4-node graphs x limits 1-3; every interleaving within the preemption bound; oracle: no deadlock, no livelock, cycle reachable => error + CyclicDependencyError handed out, acyclic => none.",
+    SCHED_NOTE, "DESIGN.md section 5 C05")
+add("C06", "vsched", "stateless exploration of all interleavings of the real dawn.Load (real Starlark) over generated load graphs, preemption-bounded with HB pruning",
+    "dawn.Load runs on generated project trees realising a curated family of load graphs (shared helpers loading helpers, BUILD-loads-BUILD, self-loads, 2- and 3-cycles within and across loader goroutines, 2-4 packages) and all graphs with <=3 edges (2 packages) / <=2 edges (3 packages) up to symmetry in quick, <=3/<=4 in thorough; every interleaving of the loader goroutines within the preemption bound; oracle: each module executed at most once, no deadlock/livelock, acyclic => success with the expected targets and flags, cyclic => 'cyclic dependency' error.",
+    SCHED_NOTE, "DESIGN.md section 5 C06")
+add("C09", "vsched", "stateless exploration of all thread interleavings of the real runner; concurrency monitor + maximum-over-all-executions oracle",
+    "Same scenarios as C04 plus cyclic graphs and fans preceded by each special path (unknown, failing, cyclic, nested) at limits 1-3: a monitor counts targets executing outside EvaluateTargets and must never exceed the limit (vsched.NumCPU replaces runtime.NumCPU); every scenario completes at limit 1; over all explored interleavings of a fan the maximum concurrency must equal min(limit, width).",
+    SCHED_NOTE, "DESIGN.md section 5 C09")
+add("C20", "vsched", "exhaustive (unbounded) exploration of all interleavings of 2-3 colliding Cache.once callers, HB-pruned and cross-checked unpruned",
+    "The real cache.go under the controlled scheduler: 2-3 threads x 1-2 once() calls over two keys x succeeding/failing callables with a scheduling point inside the callable; all interleavings without preemption bound; oracle: <=1 successful invocation per key, identical value for all callers, failures cache nothing, no deadlock.",
+    SCHED_NOTE, "DESIGN.md section 5 C20")
+
 NA = {
 }
 for i in range(1, 21):
